@@ -192,6 +192,10 @@ def c02_extra_layouts(tier):
         Ls.append(Layout(W, [Field("f", T_uint(10), [(W - 4, 4), (3, 3), (6, 3)], None, "rw")], tag=f"list far entry first then adjacent entries on u{W}"))
         Ls.append(Layout(W, [Field("f", T_uint(9), [(6, 3), (3, 3), (0, 3)], None, "rw")], tag=f"list with descending adjacent entries on u{W}"))
         Ls.append(Layout(W, [Field("f", T_uint(6), [(2, 1), (3, 1), (4, 1), (8, 3)], None, "rw")], tag=f"single bits continuing each other then a range on u{W}"))
+        for (w_, s_, k_) in ((8, 4, 3), (16, 20 if W >= 40 else 1, 9), (8, W - 9, 5)):
+            if s_ + w_ <= W and s_ >= 0:
+                for ty in (T_uint(w_), T_int(w_)):
+                    Ls.append(Layout(W, [Field("f", ty, [(s_ + k_, w_ - k_), (s_, k_)], None, "rw")], tag=f"{ty.decl_ty()} rotated by {k_} inside the window starting at bit {s_} of u{W}"))
         Ls.append(Layout(W, [Field("a", T_uint(4), [(0, 4)], (2, 8, True), "rw", attr_split="access_last"), Field("b", T_bool(), [(5, 1)], None, "rw", attr_split="access_first"), Field("c", T_int(8), [(W - 8, 8)], None, "w", attr_split="access_last")], tag=f"fields whose attribute arguments are split over two attributes on u{W}"))
         if not is_native(W):
             # arbitrary-int base: a list whose NON-last item ends on the top bit
@@ -303,6 +307,11 @@ def c03_layouts(tier, seed):
         import copy
         Ls.append(Layout(W, [copy.deepcopy(a), copy.deepcopy(b), copy.deepcopy(c)], tag=f"strided array, then dense arrays without stride on u{W}"))
         Ls.append(Layout(W, [copy.deepcopy(c), copy.deepcopy(b), copy.deepcopy(a)], tag=f"dense arrays first, strided array last on u{W}"))
+    # fields named like locals / parameters a generated body might use (offset, index, value, temp, ...)
+    for W in (64, 128, 48):
+        fs = [Field("offset", T_int(8), [(0, 8)], (2, 8, False), "rw"), Field("index", T_uint(4), [(16, 4)], (2, 4, False), "rw"), Field("value", T_uint(4), [(24, 1), (26, 3)], (2, 4, True), "rw"),
+              Field("temp", T_uint(4), [(32, 4)], None, "rw"), Field("field_value", T_bool(), [(36, 1)], (3, 1, False), "rw"), Field("effective_index", T_uint(2), [(40, 2)], (2, 3, True), "rw"), Field("result", T_uint(3), [(45, 3)], None, "rw")]
+        Ls.append(Layout(W, fs, default=("lit", 0, "dec"), tag=f"fields named offset / index / value / temp / field_value / effective_index / result on u{W}"))
     # the arguments of one field spread over two attributes
     for split in ("access_last", "access_first"):
         for (W, shape, ty) in ((32, (0, 4, 8, 4), T_uint(4)), (64, (4, 8, 16, 3), T_int(8)), (24, (1, 1, 3, 5), T_bool())):
@@ -892,6 +901,11 @@ def c08_extra_layouts(tier):
         for rs in lists:
             for (ft, aux) in custom_types_for(W, "quick", rnd):
                 Ls.append(Layout(W, [Field("f", copy.deepcopy(ft), rs, None, "rw")], aux=[copy.deepcopy(aux)], tag=f"{ft.kind} as wide as the base over a permuted list on u{W}"))
+    for W in (16, 64, 24):
+        e = sparse_enum("EO", 3, [0, 4, 5, 7], None)
+        Ls.append(Layout(W, [Field("speed", FType("optenum", 3, e), [(0, 2), (7, 1)], None, "rw", list_split=1)], aux=[e], tag=f"Option<enum> over a range list split across two attributes on u{W}"))
+        e2 = full_enum("EF", 2)
+        Ls.append(Layout(W, [Field("m", FType("enum", 2, e2), [(W - 2, 1), (3, 1)], (2, 1, True), "rw", list_split=1, list_trailing_comma=True)], aux=[e2], tag=f"array of exhaustive enums over a split list on u{W}"))
     for style in ("qualified", "abs", "std"):
         for W in (16, 64, 24):
             e = sparse_enum("EO", 3, [0, 5, 7], None)
@@ -1050,7 +1064,7 @@ def c12_directed_layouts():
               Field("top", T_bool(), [(W - 1, 1)], None, "rw")]
         Ls.append(Layout(W, fs, tag=f"overlapping views: arrays of range lists (first range not at bit 0), strided nibbles, bytes; attribute argument order '{order}' on u{W}"))
         K = min(W // 8, 4)
-        fs2 = [Field("swapped", T_uint(8), [(4, 4), (0, 4)], (K, 8, True), "rw"), Field("rev", T_uint(4), [(3, 1), (2, 1), (1, 1), (0, 1)], (K, 8, True), "rw"),
+        fs2 = [Field("offset", T_int(8), [(0, 8)], (K, 8, False), "rw"), Field("swapped", T_uint(8), [(4, 4), (0, 4)], (K, 8, True), "rw"), Field("rev", T_uint(4), [(3, 1), (2, 1), (1, 1), (0, 1)], (K, 8, True), "rw"),
                Field("plain", T_uint(8), [(0, 8)], (K, 8, False), "rw"), Field("split", T_uint(4), [(4, 4)], (K, 8, True), "rw", attr_split="access_last")]
         Ls.append(Layout(W, fs2, tag=f"permuted gap-free range lists on arrays next to plain views of the same bits; a field whose arguments are split over two attributes; on u{W}"))
     return Ls
@@ -1695,6 +1709,12 @@ def c09_candidates(tier):
         add(W, [Field("f", T_uint(8), [(2, 9)], None, "rw")], "type-width-mismatch", f"u8 over 9 bits on u{W}")
         add(W, [Field("f", T_int(16), [(0, 8)], None, "rw")], "type-width-mismatch", f"i16 over 8 bits on u{W}")
         add(W, [Field("f", T_uint(1), [(0, 2)], None, "rw")], "type-width-mismatch", f"u1 over 2 bits on u{W}")
+    # arrays whose NATIVE element type is wider than the element's bits while the explicit stride is as wide as the type
+    for W in (32, 64, 24, 48):
+        add(W, [Field("f", T_uint(8), [(4, 4)], (W // 8, 8, True), "rw")], "type-width-mismatch", f"[u8;{W // 8}] over 4-bit elements with stride 8 on u{W}")
+        add(W, [Field("f", T_int(8), [(1, 5)], (2, 8, True), "rw")], "type-width-mismatch", f"[i8;2] over 5-bit elements with stride 8 on u{W}")
+        add(W, [Field("f", T_uint(16), [(0, 12)], (W // 16, 16, True), "w")] if W >= 32 else [Field("f", T_uint(8), [(0, 6)], (2, 9, True), "w")], "type-width-mismatch", f"write-only native array over fewer bits than its type on u{W}")
+        add(W, [Field("f", T_uint(8), [(0, 2), (4, 2)], (2, 8, True), "rw")], "type-width-mismatch", f"[u8;2] over 4-bit range lists with stride 8 on u{W}")
     # 1b. custom-typed fields (bitenum / hand-written / nested bitfield) whose raw type is wider or
     # narrower than the selected bits; write-only ones have no getter whose type error would catch it
     for W in (8, 32, 24, 128):
@@ -2294,6 +2314,11 @@ def c19_layouts(tier, seed):
     Ls.append(mk(32, [("uint", [(25, 7), (7, 5)], 12), ("optenum", 0, 8), ("uint", 20, 1)], "list field, native-storage Option<enum>, u1 on u32"))
     Ls.append(mk(24, [("uint", 0, 9), ("int", 16, 8), ("bool", 23, 1)], "arbitrary base u24"))
     Ls.append(mk(9, [("uint", 0, 9), ("bool", 8, 1), ("enum", 1, 1)], "arbitrary base u9 incl. 1-bit enum"))
+    # struct names that a generated impl might also import for itself
+    for nm in ("Result", "Formatter"):
+        Ln = Layout(16, [Field("a", T_uint(8), [(0, 8)], None, "rw"), Field("b", T_bool(), [(8, 1)], None, "r"), Field("c", T_int(8), [(8, 8)], None, "rw")], debug=True, tag=f"debug struct named {nm}")
+        Ln.name = nm
+        Ls.append(Ln)
     # more than 16 fields (17 here; 20 in the thorough tier)
     L17 = Layout(32, [Field(f"b{i}", T_bool() if i % 4 else T_uint(1), [(i, 1)], None, "rw") for i in range(16)] + [Field("tail", T_uint(8), [(24, 8)], None, "r")], debug=True, tag="17 fields on u32")
     Ls.append(L17)
